@@ -24,7 +24,7 @@ from typing import Dict, List, Optional, Sequence, Set, Tuple
 
 from ..cfg import CFG
 from ..consteval import ConstEval, Sym, CallVal
-from ..core import (AnalysisError, ClassInfo, FuncInfo, FUNC_TYPES, always_exits, ancestors, ap, atoms, call_attr,
+from ..core import (AnalysisError, ClassInfo, FuncInfo, FUNC_TYPES, always_exits, ancestors, ap, atoms, call_attr, facts,
                     calls, conditions, enclosing_stmt, find_calls, norm, parent, stores, walk, _block_of)
 from .common import class_methods_reachable
 
@@ -1001,7 +1001,10 @@ def r2(ctx):
     pf = repo.fn("HumanMessageSerializer.from_human_string")
     tf = repo.fn("HumanMessageSerializer.to_human_string")
     fv = repo.fn("HumanMessageSerializer._format_var")
-    ml = repo.fn("HumanMessageSerializer._multi_line_pformat")
+    # the multi-line literal printer: a method of the serializer or a module-level function of its module
+    ml = repo.fn_opt("HumanMessageSerializer._multi_line_pformat") or repo.fn_opt("_multi_line_pformat", FMT)
+    ctx.require(ml is not None, "anchor _multi_line_pformat (method of HumanMessageSerializer or function of "
+                                "message_formatting.py) vanished")
     pfns = class_methods_reachable(repo, pf)
     ev = ConstEval(repo, pf.module)
 
@@ -1215,7 +1218,10 @@ def r2(ctx):
             return None if a is None or b is None else a | b
         if isinstance(e, ast.Name):
             bs = mlbind.get(e.id, [])
-            if not bs or any(b is None for b in bs):
+            if not bs:
+                mv = repo.module_assign(ml.module, e.id)
+                return const_values(mv, depth + 1) if mv is not None else None
+            if any(b is None for b in bs):
                 return None
             out: Set[str] = set()
             for b in bs:
@@ -1251,11 +1257,38 @@ def r2(ctx):
         var_idx = [i for i, v in enumerate(vals) if v is None]
         if len(var_idx) == 1 and any(v is not None and any("\n" in c for c in v) for v in vals):
             assemblies.append((n, ps, vals, var_idx[0]))
-    ctx.floor("C11.R2", "line assembly expressions in _multi_line_pformat", len(assemblies), 1)
     import itertools as _it
+    shaped = []          # (node, prefixes, suffixes)
     for n, ps, vals, vi in assemblies:
         pres = {"".join(c) for c in _it.product(*vals[:vi])} if vi else {""}
         sufs = {"".join(c) for c in _it.product(*vals[vi + 1:])} if vi + 1 < len(ps) else {""}
+        shaped.append((n, pres, sufs))
+    # `SEP.join(<line or INDENT + line> for ...)`: SEP follows every line but the last
+    for n in walk(ml.node, into_defs=True):
+        if isinstance(n, ast.Call) and isinstance(n.func, ast.Attribute) and n.func.attr == "join" and len(n.args) == 1 \
+                and isinstance(n.args[0], (ast.GeneratorExp, ast.ListComp)):
+            seps = const_values(n.func.value)
+            if not seps or not any("\n" in c for c in seps):
+                continue
+            arms = [n.args[0].elt]
+            while any(isinstance(a, ast.IfExp) for a in arms):
+                arms = [x for a in arms for x in ([a.body, a.orelse] if isinstance(a, ast.IfExp) else [a])]
+            pres, sufs, okshape = set(), set(seps), True
+            for a in arms:
+                ps = parts_of(a) or [a]
+                vals = [const_values(x) for x in ps]
+                var_idx = [i for i, v in enumerate(vals) if v is None]
+                if len(var_idx) != 1:
+                    okshape = False
+                    break
+                vi = var_idx[0]
+                pres |= {"".join(c) for c in _it.product(*vals[:vi])} if vi else {""}
+                if vi + 1 < len(ps):
+                    sufs = {x + y for x in ({"".join(c) for c in _it.product(*vals[vi + 1:])}) for y in seps}
+            if okshape:
+                shaped.append((n, pres, sufs))
+    ctx.floor("C11.R2", "line assembly expressions in _multi_line_pformat", len(shaped), 1)
+    for n, pres, sufs in shaped:
         for suf in sorted(sufs):
             if not suf:
                 continue
@@ -1575,7 +1608,7 @@ def _lossy_call(c: ast.Call) -> Optional[str]:
     return None
 
 
-NARROWING = {"float32", "float16", "half", "single", "round", "trunc", "floor", "ceil"}
+NARROWING = {"float32", "float16", "half", "single", "round", "trunc", "floor", "ceil", "abs"}
 
 
 def r4(ctx):
@@ -1594,6 +1627,31 @@ def r4(ctx):
     ctx.require(len(vp) == 1, "C11.R4: cannot identify the value parameter of _format_var (the one passed to repr()/str())")
     value_params[fvar.full] = vp
     fns.append(fvar)
+    # str(value) / repr(value) under an isinstance test of a repository class prints through that class's
+    # __str__ / __repr__ (and the overrides in its subclasses): the same condition applies there, with raw = self
+    for c in calls(fvar.node):
+        if isinstance(c.func, ast.Name) and c.func.id in ("str", "repr") and c.args and ap(c.args[0]) == vp[0]:
+            dunder = "__str__" if c.func.id == "str" else "__repr__"
+            for e, pol in facts(c, fvar.node):
+                if pol and isinstance(e, ast.Call) and ap(e.func) == "isinstance" and len(e.args) == 2 and ap(e.args[0]) == vp[0]:
+                    tnodes = e.args[1].elts if isinstance(e.args[1], ast.Tuple) else [e.args[1]]
+                    for tn in tnodes:
+                        ci = repo.resolve_class(ap(tn) or "", fvar.module)
+                        if ci is None and "." in (ap(tn) or ""):
+                            head, _, rest = ap(tn).partition(".")
+                            m2 = repo.by_modname.get(fvar.module.imports.get(head, ""))
+                            ci = repo.resolve_class(rest, m2) if m2 is not None else None
+                        if ci is None:
+                            continue
+                        for k in [ci] + repo.subclasses(ci, strict=True):
+                            m = k.methods.get(dunder)
+                            if m is not None and m not in fns:
+                                fns.append(m)
+                                value_params[m.full] = ["self"]
+                        base_m = repo.lookup_method(ci, dunder)
+                        if base_m is not None and base_m not in fns:
+                            fns.append(base_m)
+                            value_params[base_m.full] = ["self"]
     total = 0
     for g in fns:
         params = value_params.get(g.full) or [a.arg for a in g.node.args.args if a.arg not in ("self", "cls")]
@@ -1619,6 +1677,12 @@ def r4(ctx):
                     if call_attr(n) in NARROWING and not sanitised and any(expr_raw(a) for a in n.args):
                         out.append((n, f"{ap(n.func) or call_attr(n)}() is a narrowing conversion (distinct values map to "
                                        f"the same result, e.g. the doubles of an LLVector3d)"))
+                if isinstance(n, ast.BinOp) and not sanitised and not isinstance(n.op, (ast.BitAnd, ast.BitOr, ast.BitXor)):
+                    for a, b in ((n.left, n.right), (n.right, n.left)):
+                        if isinstance(a, ast.Name) and a.id in raw and isinstance(b, ast.Constant) and \
+                                isinstance(b.value, (int, float)) and not isinstance(b.value, bool):
+                            out.append((n, "arithmetic on the raw value: the parser reads the printed number verbatim, so "
+                                           "the printer must print it verbatim (e.g. `x + 0.0` turns -0.0 into 0.0)"))
                 if isinstance(n, ast.Compare):
                     sanitised = True
                 for ch in ast.iter_child_nodes(n):
@@ -1682,20 +1746,6 @@ def r4(ctx):
             else:
                 ctx.ob("C11.R4", f"{g.qual}: `return {norm(r.value)}` built from separator-preserving pieces", True, ctx.w(g, r))
     ctx.floor("C11.R4", "return statements of the printers", total, 3)
-
-
-def r5(ctx):
-    """Beautified flag fields (`=|` with named bits + leftover int) parse back through IntFlag.encode/decode: the
-    sign-safety clause of C09.R2 is also a C11 clause."""
-    from ..engine import RenamedCtx
-    from ..tmplmodel import parse_template
-    from . import c09
-    rc = RenamedCtx(ctx, {"C09.R2": "C11.R5", "C09.R1": "C11.R5", "C09": "C11.R5"})
-    tmpl = parse_template(ctx.repo.root, ctx.repo.overlay)
-    regs = c09.registrations(rc)
-    c09.r2(rc, regs, tmpl)
-    ctx.rule("C11.R5", "pretty-printed flag/enum subfields re-encode sign-safely (re-runs C09.R2 under C11: flag/enum "
-                       "adapters never build or OR an enum.IntFlag from a possibly negative int)")
 
 
 def r6(ctx):
@@ -1792,7 +1842,6 @@ def r6(ctx):
 
 def run(ctx):
     r6(ctx)
-    r5(ctx)
     r1(ctx)
     r2(ctx)
     r3(ctx)
